@@ -355,13 +355,19 @@ Definition decl_edges (o : op) : list (key * key) :=
   end.
 Definition link_edges (s : st) : list (key * key) :=
   flat_map (fun n => match ncre n with Some a => [(a, nk n)] | None => [] end) (nodes s).
+Definition step_edges (s : st) (o : op) : list (key * key) := dep_edges s ++ link_edges s ++ decl_edges o.
 Definition cone_edges (h : list (st * op)) : list (key * key) :=
-  flat_map (fun so => dep_edges (fst so) ++ link_edges (fst so) ++ decl_edges (snd so)) h.
+  flat_map (fun so => step_edges (fst so) (snd so)) h.
 Definition cone_seeds (E G : list str) : list key :=
   map (fun f => (KFile, f)) E ++ map (fun l => (KStep, l)) G.
-Definition tcone_keys (E G : list str) (h : list (st * op)) : list key :=
-  closure_from key_eqb (cone_edges h) (length (cone_edges h)) (cone_seeds E G).
+Definition tcone_keys_e (E G : list str) (edges : list (key * key)) : list key :=
+  closure_from key_eqb edges (length edges) (cone_seeds E G).
+Definition tcone_keys (E G : list str) (h : list (st * op)) : list key := tcone_keys_e E G (cone_edges h).
 Definition tcone_b (E G : list str) (h : list (st * op)) (k : key) : bool := mem_key k (tcone_keys E G h).
+(* the edges of the states visited so far, without repetitions (consecutive states share most rows) *)
+Definition edge_eqb (a b : key * key) : bool := key_eqb (fst a) (fst b) && key_eqb (snd a) (snd b).
+Definition add_edges (new acc : list (key * key)) : list (key * key) :=
+  fold_left (fun acc e => if existsb (edge_eqb e) acc then acc else e :: acc) new acc.
 
 Definition in_flight_b (l : str) (s : st) : bool :=
   match sstate_of l s with Some SRunning | Some SChecking => true | _ => false end.
@@ -381,8 +387,7 @@ Definition input_in_cone_b (cone : list key) (s : st) (l : str) : bool :=
    5 dispatch guard false, 6 an idle optional step outside the cone is dispatched,
    7 the job is not in flight, 8 the requesting step is not RUNNING,
    9 an orphaned BUILT input outside the cone is adopted *)
-Definition cone_op2_why (q : st) (E G : list str) (h : list (st * op)) (s : st) (o : op) : N :=
-  let cone := tcone_keys E G h in
+Definition cone_op2_why (q : st) (E : list str) (cone : list key) (s : st) (o : op) : N :=
   match o with
   | OpUpdateHashes CExternal hs =>
     if forallb (fun ph => mem_str (fst ph) E) hs && static_sources_b s hs then 0 else 2
@@ -404,14 +409,16 @@ Definition cone_op2_why (q : st) (E G : list str) (h : list (st * op)) (s : st) 
   | OpHold _ | OpRelease _ => 0
   | _ => 1
   end.
-(* index and reason of the first transaction that does not satisfy cone_op2 *)
-Fixpoint cone_ops2_first_bad (q : st) (E G : list str) (i : nat) (h : list (st * op)) (s : st) (ops : list op)
-  : option (nat * N) :=
+(* index and reason of the first transaction that does not satisfy cone_op2 (edges: the edges of
+   the history so far) *)
+Fixpoint cone_ops2_first_bad (q : st) (E G : list str) (i : nat) (edges : list (key * key)) (s : st)
+         (ops : list op) : option (nat * N) :=
   match ops with
   | [] => None
   | o :: ops' =>
-    match cone_op2_why q E G ((s, o) :: h) s o with
-    | 0 => cone_ops2_first_bad q E G (S i) ((s, o) :: h) (apply_op s o) ops'
+    let edges' := add_edges (step_edges s o) edges in
+    match cone_op2_why q E (tcone_keys_e E G edges') s o with
+    | 0 => cone_ops2_first_bad q E G (S i) edges' (apply_op s o) ops'
     | c => Some (i, c)
     end
   end.
@@ -444,3 +451,43 @@ Definition check_trace_x (cap : N) (tr : list (xop * outcome * dump)) : bool :=
 Definition successful_history (cap : N) (hist : list xop) : Prop :=
   exists pre, hist = pre ++ [XRevert; XOp OpDeleteDetached] /\
               end_of_phase_b (run_xops pre (init_st cap)) = true.
+
+(* ------------------------------------------------------------------------------------------ *)
+(* The full sentence of the property, on histories of transactions of the stored workflow      *)
+(* ------------------------------------------------------------------------------------------ *)
+(* a build issues OpDispatch only for steps that satisfy the dispatch predicate *)
+Fixpoint dispatch_enabled (ops : list op) (s : st) : Prop :=
+  match ops with
+  | [] => True
+  | o :: ops' =>
+    match o with OpDispatch l => dispatch_guard l s = true | _ => True end /\
+    dispatch_enabled ops' (apply_op s o)
+  end.
+Definition consumes (s : st) (l f : str) : Prop := has_dep (KFile, f) (KStep, l) s = true.
+Definition produces (s : st) (l f : str) : Prop := has_dep (KStep, l) (KFile, f) s = true.
+
+Definition C04_full : Prop :=
+  forall (cap : N) (hist : list xop),
+    successful_history cap hist ->
+    let q := run_xops hist (init_st cap) in
+    (* rebuilding with nothing changed: restart flavour, watch flavour *)
+    (forall rehash, unchanged_b q rehash = true ->
+       run_ops (startup_ops q [] rehash) q = q /\ dispatchable q = [] /\
+       revert_optional q = Ok q /\ delete_detached q = Ok q) /\
+    (forall rehash, unchanged_watch_b q rehash = true ->
+       run_ops (watch_ops q rehash) q = q /\ dispatchable q = [] /\
+       revert_optional q = Ok q /\ delete_detached q = Ok q) /\
+    (* after editing source files E (G: steps owning a glob pattern that matches an edited
+       path): every executed command is justified *)
+    (forall (E : list (str * option N)) (G : list str) (build : list op),
+       forallb (fun ph => match fstate_of (fst ph) q with
+                          | Some FConfirmed | Some FMissing => true | _ => false end) E = true ->
+       let q1 := run_ops (map (fun ph => OpUpdateHashes CExternal [ph]) E ++ map OpMarkStepPending G) q in
+       dispatch_enabled build q1 ->
+       let s' := run_ops build q1 in
+       forall l, In l (executed build q1) ->
+         (exists f, In f (map fst E) /\ consumes q l f) \/ In l G \/
+         (exists l' f, In l' (executed build q1) /\ l' <> l /\
+                       (produces q l' f \/ produces s' l' f) /\ (consumes q l f \/ consumes s' l f)) \/
+         (exists l', In l' (executed build q1) /\
+                     (creator_of (KStep, l) q = Some (KStep, l') \/ creator_of (KStep, l) s' = Some (KStep, l')))).
